@@ -32,7 +32,7 @@ def run(repo, run, tier):
     # 'no recorded step overshoots the target': integrate() bounds only the step it REQUESTS (|dt| <= |tf - t|) and records t + dTime unchecked, so the
     # integrator must never take a step longer than the one it was given -- in particular on the retries of a rejected step
     from .c05 import retry_step
-    retry_step(repo, run, rule_id="C03.10")
+    retry_step(repo, run, rule_id="C03.10", strict=True)
     target_as_given(repo, run, m)
     committed_row_is_written(repo, run, m)
 
